@@ -210,7 +210,7 @@ CONTRACTS.append(guard_set(Contract(
     ],
     # any exception = refusal: nothing was touched
     raises=[ExcSpec('Exception', ensures=no_effect, modifies=NOTHING)],
-    modifies=lambda c: ['g:eff', 'g:fs_kind', 'g:fs_epoch', 'g:rm_attempts'],
+    modifies=lambda c: ['g:eff', 'g:fs_kind', 'g:fs_epoch', 'g:rm_attempts', 'g:vstate'],
     loops={
         0: LoopSpec(inv=lambda c: [('no-callback', c.gnew('ncalls') == c.gentry('ncalls'))]),
         1: LoopSpec(inv=lambda c: [('no-callback', c.gnew('ncalls') == c.gentry('ncalls'))]),
@@ -240,7 +240,8 @@ BUILD_MODS = [
     'BuildDirs._removed_files', 'FileBackups._backups', 'FileBackups._next_backup_index',
     'SimpleOperationExecutor._hash_cache', 'FileBuilder._is_finished_build',
 ]
-BUILD_GHOSTS = ['g:eff', 'g:fs_kind', 'g:fs_epoch', 'g:ncalls', 'g:rm_attempts']
+BUILD_GHOSTS = ['g:eff', 'g:fs_kind', 'g:fs_epoch', 'g:ncalls', 'g:rm_attempts', 'g:vstate',
+                'g:bd_res']
 
 # (_build's contract: see the end of this module, where it is verified)
 
@@ -258,7 +259,22 @@ def bv_mkdtemp_guard(eng, st, args):
                           eng.hread(st, 'Cache._build_name', oc.t) == PyV.ps(J.base_of(bn.t)))
     func = eng.cur_args['func']
     vers = eng.cur_args['versions']
-    return [
+    bd_facts = []
+    bd = env.get('build_dirs')
+    if bd is not None and oc is not None:
+        # the directory bookkeeping starts from the previous build's record: its created
+        # directories may be gone, its outputs and the cache file are gone (C04, C12, C03)
+        v = _StView(eng, st)
+        rf = eng.hread(st, 'BuildDirs._removed_files', bd.t)
+        mr = eng.hread(st, 'BuildDirs._maybe_removed_dirs', bd.t)
+        bd_facts = [
+            ('bookkeeping-knows-the-cache-file-is-not-foreign', rf[cf], ['C12', 'C04', 'C03']),
+            ('bookkeeping-knows-the-previous-outputs', ForAll([xs_], Implies(
+                CA.created(v, 'old', oc.t, xs_), rf[xs_])), ['C12', 'C04', 'C03']),
+            ('bookkeeping-knows-the-previous-created-dirs', ForAll([xs_], (
+                mr[xs_] == eng.hread(st, 'Cache._created_dirs', oc.t)[xs_])), ['C12', 'C04', 'C03']),
+        ]
+    return bd_facts + [
         ('name-is-str', J.is_str(J.base_of(bn.t)), ['C15']),
         ('func-callable', func.is_callable, ['C15']),
         ('versions-is-json-dict', And(J.is_dict(J.base_of(vers.t)), J.jsonable(vers.t)), ['C15']),
@@ -278,7 +294,7 @@ def first_effect_is_mkdtemp(c):
               And(e1 > e0, c.gnew('mkdtemp_at') == e0))
 
 
-def bv_exit(eng, st, ctrl):
+def bv_exit(eng, st, ctrl, val=None):
     """C17.Z2: the root builder created by this call is finished on every exit (also when the
     build function raised something that is not an Exception)"""
     b = st.env.get('builder')
@@ -300,7 +316,7 @@ def root_builders_closed(c):
 
 
 CONTRACTS.append(guard_set(Contract(
-    M + 'build_versioned', props=['C15', 'C17'],
+    M + 'build_versioned', props=['C15', 'C17', 'C12', 'C04', 'C03'],
     params={'cache_filename': PYV, 'build_name': PYV, 'versions': PYV, 'func': callback(),
             'args': VARARGS, 'kwargs': KWARGS},
     returns=PYV,
@@ -367,6 +383,15 @@ CONTRACTS[-1].fresh_props = ['C11']
 # (_build_file's contract is defined with its verification further below)
 
 
+def same_user_exception(eng, st, ctrl, exc):
+    """C10/C02: an exception raised by the user function propagates as the same object"""
+    if ctrl != 'exc':
+        return []
+    cb = eng.gread(st, 'cb_exc')
+    return [('user-exception-propagates-as-the-same-object', Or(cb == -1, exc.ident == cb),
+             ['C10', 'C02'])]
+
+
 def cb_args_fresh_hook(eng, st, f, pos, kws, starv, dstarv, node):
     """C11.A2: every JSON argument handed to the user function is a private copy"""
     intr = eng.intr
@@ -379,7 +404,8 @@ def cb_args_fresh_hook(eng, st, f, pos, kws, starv, dstarv, node):
             vals.append(v)
     for i, v in enumerate(vals):
         eng.oblige(st, intr.fresh_goal(eng, st, v), 'region',
-                   'callback-argument-%d-fresh@L%d' % (i, node.lineno), props=['C11', 'C07'],
+                   'callback-argument-%d-fresh@L%d' % (i, node.lineno),
+                   props=['C11', 'C07', 'C08'],
                    line=node.lineno)
 
 
@@ -470,6 +496,7 @@ SUBBUILD_INNER = Contract(
                     ensures=lambda c: append_only(c, True))],
     modifies=builder_mods,
 )
+SUBBUILD_INNER.exit_obligations = lambda eng, st, ctrl, v: same_user_exception(eng, st, ctrl, v)
 SUBBUILD_INNER.callback_havoc = cb_havoc_builder
 SUBBUILD_INNER.on_callback = cb_args_fresh_hook
 CONTRACTS.append(SUBBUILD_INNER)
@@ -619,25 +646,14 @@ REBUILD = Contract(
         ExcSpec('KeyboardInterrupt', ensures=lambda c: append_only(c, True))],
     modifies=builder_mods,
 )
+REBUILD.exit_obligations = lambda eng, st, ctrl, v: same_user_exception(eng, st, ctrl, v)
 REBUILD.callback_havoc = cb_havoc_builder
 REBUILD.on_callback = cb_args_fresh_hook
 REBUILD.lock_guards = {'Operation.is_finished': '_lock'}
 CONTRACTS.append(REBUILD)
 
 
-# comparison results as seen by FileBuilder (semantics: contracts/executor.py, C13)
-CMP_RESULT = Contract(
-    EXEC + 'file_comparison_result', props=['C13'], trusted=True,
-    params={'self': OBJ('SimpleOperationExecutor'), 'filename': STR, 'file_comparison_name': STR},
-    returns=PYV,
-    ensures=lambda c: no_effect(c) + [('not-None', Not(J.is_none(c.res))),
-                                      ('json', J.sanitized(c.res)),
-                                      ('was-a-file', c.gold('fs_kind')[c.filename] == K_FILE)],
-    raises=[ExcSpec('FileNotFoundError', ensures=no_effect),
-            ExcSpec('IsADirectoryError', ensures=no_effect),
-            ExcSpec('OSError', ensures=no_effect), ExcSpec('ValueError', ensures=no_effect)],
-    modifies=lambda c: ['SimpleOperationExecutor._hash_cache'])
-CONTRACTS.insert(0, CMP_RESULT)
+# (file_comparison_result: contract in contracts/executor.py)
 
 
 # ===================================================================================================
@@ -699,6 +715,28 @@ def record_axioms(c):
                                       VOK(s[qi_]))))))),
             ('def-record-type-invariant', ForAll([qr_], Implies(RWF(qr_), And(
                 local, Implies(is_complex(qr_), kids)))))]
+
+
+# NBF(o): number of build-file records below o that did not raise (also below raised ones): the
+# outputs a reuse of o must re-reserve (C01.L5).  NBFP(o, i) = the same over the first i children.
+NBF = z3.Function('nonraised_outputs_below', ObjS, z3.IntSort())
+NBFP = z3.Function('nonraised_outputs_prefix', ObjS, z3.IntSort(), z3.IntSort())
+
+
+def nbf_term(c, s_):
+    """contribution of one suboperation"""
+    return If(And(cls_of(s_) == CLS['BuildFileOperation'], Not(c.old(RAISED, s_))),
+              1 + NBF(s_), If(is_complex(s_), NBF(s_), 0))
+
+
+def nbf_axioms(c):
+    s = c.old(SUBOPS, qr_)
+    return [('def-outputs-below', ForAll([qr_], Implies(RWF(qr_), And(
+        NBFP(qr_, 0) == 0, NBF(qr_) == NBFP(qr_, z3.Length(s)), NBF(qr_) >= 0)))),
+        ('def-outputs-prefix', ForAll([qr_, qi_], Implies(
+            And(RWF(qr_), 0 <= qi_, qi_ < z3.Length(s)),
+            And(NBFP(qr_, qi_ + 1) == NBFP(qr_, qi_) + nbf_term(c, s[qi_]),
+                NBFP(qr_, qi_) >= 0))))]
 
 
 def cf_inv(c, st, cf):
@@ -964,7 +1002,7 @@ COMMIT = guard_set(Contract(
     M + '_commit', props=['C03', 'C01', 'C12', 'C10'],
     params={'self': FB, 'norm_cased_error_created_dirs': LIST(STR)},
     ensures=lambda c: [('no-callback', c.gnew('ncalls') == c.gold('ncalls'))] + eff_grows(c),
-    modifies=lambda c: EXEC_MODS + ['g:eff', 'g:fs_kind', 'g:fs_epoch', 'g:rm_attempts'],
+    modifies=lambda c: EXEC_MODS + ['g:eff', 'g:fs_kind', 'g:fs_epoch', 'g:rm_attempts', 'g:vstate'],
     local_types={'dirs_to_remove': SET(STR)},
     loops={
         0: LoopSpec(inv=lambda c: [('no-callback', c.gnew('ncalls') == c.gentry('ncalls')),
@@ -1034,8 +1072,8 @@ ROLLBACK = guard_set(Contract(
                        ('backups-consumed', z3.Length(c.new(
                            'FileBackups._backups', c.new('FileBuilder._backups', c.self))) == 0)]
     + eff_grows(c),
-    modifies=lambda c: ['FileBackups._backups', 'g:eff', 'g:fs_kind', 'g:fs_epoch',
-                        'g:rm_attempts'],
+    modifies=lambda c: ['FileBackups._backups', 'g:eff', 'g:fs_kind', 'g:fs_epoch', 'g:vstate',
+                        'g:rm_attempts', 'g:vstate'],
     local_types={'dirs_to_remove': SET(STR)},
     loops={
         0: LoopSpec(inv=lambda c: [
@@ -1102,7 +1140,7 @@ MAKE_DIRS = call_guard_set(Contract(
             c.gnew('rm_attempts')[xs_])), ['C10', 'C14']),
     ] + eff_grows(c))],
     modifies=lambda c: EXEC_MODS + ['FileBackups._backups', 'FileBackups._next_backup_index',
-                                    'g:eff', 'g:fs_kind', 'g:fs_epoch', 'g:rm_attempts'],
+                                    'g:eff', 'g:fs_kind', 'g:fs_epoch', 'g:rm_attempts', 'g:vstate'],
     local_types={'made_dirs': LIST(STR)},
     loops={0: LoopSpec(inv=lambda c: [
         ('no-callback', c.gnew('ncalls') == c.gentry('ncalls')),
@@ -1168,7 +1206,7 @@ def make_room_rmdir_guard(eng, st, args):
 
 
 ROOM_MODS = lambda c: EXEC_MODS + ['FileBackups._backups', 'FileBackups._next_backup_index',
-                                   'g:eff', 'g:fs_kind', 'g:fs_epoch', 'g:rm_attempts']
+                                   'g:eff', 'g:fs_kind', 'g:fs_epoch', 'g:rm_attempts', 'g:vstate']
 MAKE_ROOM = call_guard_set(guard_set(Contract(
     M + '_make_room', props=['C03', 'C10', 'C02'],
     params={'self': FB, 'dir_': STR, 'make_room_filename': STR},
@@ -1297,12 +1335,23 @@ CONTRACTS.append(BUILD_FILE)
 
 # ---------------------------------------------------------------------------------------------------
 # end of the build: _set_created_dirs, Cache.write, _build (C02, C12.CL5, C16.P4, C14.F6)
-CONTRACTS.append(Contract(
-    'file_builder.cache.Cache.write', props=['C16', 'C02', 'C14'], trusted=True,
+def cache_write_guard(eng, st, args):
+    return [('writes-only-the-file-it-was-given', args[0] == eng.cur_args['filename'].t,
+             ['C03', 'C16', 'C02'])]
+
+
+CACHE_WRITE = guard_set(Contract(
+    'file_builder.cache.Cache.write', props=['C16', 'C02', 'C14', 'C03', 'C12'],
     params={'self': OBJ('Cache'), 'filename': STR},
+    requires=lambda c: [('assume-no-build-in-progress', And(
+        ForAll([xs_], Implies(CA.OO.is_some(c.old('Cache._files', c.self)[xs_]),
+                              CA.OI.is_some(CA.OO.val(c.old('Cache._files', c.self)[xs_])))),
+        ForAll([z3.Const('fb!hk', CA.HKeyS)], Implies(
+            CA.OSB.is_some(c.old('Cache._subbuilds', c.self)[z3.Const('fb!hk', CA.HKeyS)]),
+            CA.OSI.is_some(CA.OSB.val(c.old('Cache._subbuilds', c.self)[
+                z3.Const('fb!hk', CA.HKeyS)]))))))],
     ensures=lambda c: [
-        ('the-only-effect-is-writing-that-file', c.gnew('eff') == log_append(
-            c.gold('eff'), Effect.WriteOpen(c.filename))),
+        ('exactly-one-effect', c.gnew('eff') == c.gold('eff') + 1),
         ('file-written', c.gnew('fs_kind') == z3.Store(c.gold('fs_kind'), c.filename, K_FILE)),
         ('no-callback', c.gnew('ncalls') == c.gold('ncalls'))],
     raises=[ExcSpec('Exception', ensures=lambda c: [
@@ -1310,11 +1359,23 @@ CONTRACTS.append(Contract(
         ('at-most-that-file-touched', Or(
             c.gnew('fs_kind') == c.gold('fs_kind'),
             c.gnew('fs_kind') == z3.Store(c.gold('fs_kind'), c.filename, K_FILE))),
-        ('the-only-effect-is-writing-that-file', c.gnew('eff') == log_append(
-            c.gold('eff'), Effect.WriteOpen(c.filename))),
+        ('at-most-one-effect', And(c.gnew('eff') >= c.gold('eff'),
+                                   c.gnew('eff') <= c.gold('eff') + 1)),
         ('no-callback', c.gnew('ncalls') == c.gold('ncalls'))])],
-    modifies=lambda c: ['g:eff', 'g:fs_kind', 'g:fs_epoch'],
-    notes='serialises the record forest with json + gzip (file layer trusted, bounded stand-in)'))
+    modifies=lambda c: ['g:eff', 'g:fs_kind', 'g:fs_epoch', 'g:vstate'],
+    local_types={'non_root_operations': SET(OBJ('Operation')),
+                 'root_operations_json': LIST(PYV)},
+    loops={0: LoopSpec(modifies=NOTHING, inv=lambda c: no_effect_loop(c)),
+           1: LoopSpec(modifies=NOTHING, inv=lambda c: no_effect_loop(c))},
+    notes='effects verified; the serialised content (json + gzip) is the trusted file layer with '
+          'the bounded stand-in cache_forest'), write_open=cache_write_guard)
+CONTRACTS.append(CACHE_WRITE)
+CONTRACTS.append(Contract(
+    'file_builder.cache.Cache._operation_to_json', props=['C16'], trusted=True,
+    params={'self': OBJ('Cache'), 'operation': OBJ('Operation')}, returns=PYV,
+    ensures=lambda c: no_effect(c),
+    raises=[ExcSpec('RuntimeError', ensures=no_effect)],
+    modifies=NOTHING, notes='serialisation of one record tree (recursion: bounded stand-in)'))
 
 SET_CREATED = Contract(
     M + '_set_created_dirs', props=['C12', 'C02', 'C10'],
@@ -1366,7 +1427,8 @@ def build_write_guard(eng, st, cargs):
     return [('root-function-has-returned', eng.hread(st, 'FileBuilder._is_finished_build', me),
              ['C16', 'C02']),
             ('writes-only-the-cache-file', p == eng.cur_args['cache_filename'].t, ['C03', 'C16']),
-            ('previous-cache-file-moved-aside-first', kind[p] != K_FILE, ['C16', 'C02', 'C14'])]
+            ('previous-cache-file-moved-aside-first', kind[p] != K_FILE,
+             ['C16', 'C02', 'C14', 'C12'])]
 
 
 def build_backup_guard(eng, st, cargs):
@@ -1381,7 +1443,7 @@ def cb_havoc_root(eng, st, f, pos, kws, starv, dstarv):
 BACKUPS_OF = lambda c, st='new': getattr(c, st)('FileBackups._backups',
                                                 getattr(c, st)('FileBuilder._backups', c.self))
 BUILD = call_guard_set(Contract(
-    M + '_build', props=['C02', 'C16', 'C14', 'C17', 'C03'],
+    M + '_build', props=['C02', 'C16', 'C14', 'C17', 'C03', 'C12'],
     params={'self': FB, 'cache_filename': STR, 'func': callback(), 'args': PYV, 'kwargs': PYV},
     returns=PYV,
     requires=lambda c: executor_coherent(c) + [
@@ -1408,26 +1470,58 @@ CONTRACTS.append(BUILD)
 
 # ---------------------------------------------------------------------------------------------------
 # _apply_cached_suboperations (C01.L5, C14.F4)
+APPLY_MODS = ['BuildDirs._build_dir_counts', 'BuildDirs._created_dirs_map',
+              'BuildDirs._error_created_dirs', 'BuildDirs._removed_dirs', 'BuildDirs._exists_dirs',
+              'BuildDirs._maybe_removed_dirs', 'BuildDirs._removed_files', 'FileBackups._backups',
+              'FileBackups._next_backup_index', 'SimpleOperationExecutor._hash_cache',
+              'g:eff', 'g:fs_kind', 'g:fs_epoch', 'g:rm_attempts', 'g:vstate', 'g:bd_res']
 APPLY = Contract(
-    M + '_apply_cached_suboperations', props=['C01', 'C14', 'C03', 'C02'],
+    M + '_apply_cached_suboperations', props=['C01', 'C14', 'C03', 'C02', 'C12', 'C04'],
     params={'self': FB, 'operation': OBJ('ComplexOperation')},
-    requires=lambda c: record_axioms(c) + [('record-wf', RWF(c.operation)),
-                                           ('is-complex', is_complex(c.operation))],
-    ensures=lambda c: [('no-callback', c.gnew('ncalls') == c.gold('ncalls'))] + eff_grows(c)
-    + append_only(c),
+    requires=lambda c: record_axioms(c) + nbf_axioms(c) + [
+        ('record-wf', RWF(c.operation)), ('is-complex', is_complex(c.operation))],
+    ensures=lambda c: [('no-callback', c.gnew('ncalls') == c.gold('ncalls')),
+                       ('every-recorded-output-is-reserved-again',
+                        c.gnew('bd_res') == c.gold('bd_res') + NBF(c.operation),
+                        ['C01', 'C12', 'C04'])]
+    + eff_grows(c) + append_only(c),
     raises=[ExcSpec('Exception', ensures=lambda c: [
-        ('no-callback', c.gnew('ncalls') == c.gold('ncalls'))] + eff_grows(c) + append_only(c))],
-    modifies=lambda c: ['BuildDirs._build_dir_counts', 'BuildDirs._created_dirs_map',
-                        'BuildDirs._error_created_dirs', 'BuildDirs._removed_dirs',
-                        'BuildDirs._exists_dirs', 'BuildDirs._maybe_removed_dirs',
-                        'BuildDirs._removed_files', 'FileBackups._backups',
-                        'FileBackups._next_backup_index', 'SimpleOperationExecutor._hash_cache',
-                        'g:eff', 'g:fs_kind', 'g:fs_epoch', 'g:rm_attempts'],
+        ('no-callback', c.gnew('ncalls') == c.gold('ncalls')),
+        ('failed-reuse-releases-its-reservations', c.gnew('bd_res') == c.gold('bd_res'),
+         ['C14', 'C01']),
+    ] + eff_grows(c) + append_only(c))],
+    modifies=lambda c: APPLY_MODS,
+    local_types={'applied_count': INT},
     loops={0: LoopSpec(inv=lambda c: [
         ('no-callback', c.gnew('ncalls') == c.gentry('ncalls')),
-        ('effects-appended', log_prefix(c.gentry('eff'), c.gnew('eff')))])},
+        ('effects-appended', log_prefix(c.gentry('eff'), c.gnew('eff'))),
+        ('count-is-the-cursor', c.v('applied_count') == c.loop['i'])
+        if c.has('applied_count') else ('shape', z3.BoolVal(True)),
+        ('reservations-so-far', c.gnew('bd_res') == c.gentry('bd_res')
+         + NBFP(c.operation, c.loop['i'])),
+        ('same-list', c.loop['seq'] == c.entry(SUBOPS, c.operation))])},
 )
 CONTRACTS.append(APPLY)
+
+UNAPPLY = Contract(
+    M + '_unapply_cached_suboperations', props=['C14', 'C01'],
+    params={'self': FB, 'operation': OBJ('ComplexOperation'), 'count': INT},
+    requires=lambda c: record_axioms(c) + nbf_axioms(c) + [
+        ('record-wf', RWF(c.operation)), ('is-complex', is_complex(c.operation)),
+        ('count-in-range', And(0 <= c.count,
+                               c.count <= z3.Length(c.old(SUBOPS, c.operation))))],
+    # never raises (raises=[]): undoing must not fail
+    ensures=lambda c: no_effect(c) + [
+        ('releases-exactly-what-was-reserved',
+         c.gnew('bd_res') == c.gold('bd_res') - NBFP(c.operation, c.count))] + append_only(c),
+    modifies=lambda c: [f for f in APPLY_MODS if f.startswith('BuildDirs.')] + ['g:vstate',
+                                                                                'g:bd_res'],
+    loops={0: LoopSpec(inv=lambda c: no_effect_loop(c) + [
+        ('released-so-far', c.gnew('bd_res') == c.gentry('bd_res')
+         - NBFP(c.operation, c.loop['i'])),
+        ('same-list', c.loop['seq'] == c.entry(SUBOPS, c.operation))])},
+)
+CONTRACTS.append(UNAPPLY)
 
 
 # ---------------------------------------------------------------------------------------------------
